@@ -2,7 +2,8 @@
 
 `recording()` shadows the name `open` in the module `gemdat.trajectory` (module globals shadow
 builtins), so every file the cache code opens for writing is logged: (open, path, mode), (write,
-path, bytes), (close, path). Crash states are the directory contents at every point of that log:
+path, bytes), (close, path), and renames (Path.replace / Path.rename / os.replace / os.rename) as (rename, src,
+dst). Crash states are the directory contents at every point of that log:
 after the open (empty file) and after every byte of every write.
 """
 
@@ -66,11 +67,41 @@ def recording():
         with path_open(self, 'wb') as f:
             return f.write(data)
 
+    p_replace, p_rename = pathlib.Path.replace, pathlib.Path.rename
+
+    def path_replace(self, target):
+        out = p_replace(self, target)
+        log.append(('rename', str(self), str(target)))
+        return out
+
+    def path_rename(self, target):
+        out = p_rename(self, target)
+        log.append(('rename', str(self), str(target)))
+        return out
+
+    import os as _os
+
+    o_replace, o_rename = _os.replace, _os.rename
+
+    def os_replace(src, dst, *a, **kw):
+        out = o_replace(src, dst, *a, **kw)
+        log.append(('rename', str(src), str(dst)))
+        return out
+
+    def os_rename(src, dst, *a, **kw):
+        out = o_rename(src, dst, *a, **kw)
+        log.append(('rename', str(src), str(dst)))
+        return out
+
     pathlib.Path.open, pathlib.Path.write_bytes = path_open, path_write_bytes
+    pathlib.Path.replace, pathlib.Path.rename = path_replace, path_rename
+    _os.replace, _os.rename = os_replace, os_rename
     try:
         yield log
     finally:
         pathlib.Path.open, pathlib.Path.write_bytes = p_open, p_wb
+        pathlib.Path.replace, pathlib.Path.rename = p_replace, p_rename
+        _os.replace, _os.rename = o_replace, o_rename
         if had:
             gt.open = old
         else:
@@ -87,6 +118,8 @@ def final_contents(log):
                 files.setdefault(ev[1], b'')
         elif ev[0] == 'write':
             files[ev[1]] = files.get(ev[1], b'') + ev[2]
+        elif ev[0] == 'rename' and ev[1] in files:
+            files[ev[2]] = files.pop(ev[1])
     return files
 
 
@@ -108,4 +141,8 @@ def crash_states(log):
                 states.append(st)
             files = dict(files)
             files[ev[1]] = base + ev[2]
+        elif ev[0] == 'rename' and ev[1] in files:
+            files = dict(files)
+            files[ev[2]] = files.pop(ev[1])  # atomic: either the old or the new directory content
+            states.append(dict(files))
     return states
